@@ -94,7 +94,10 @@ def program(draw):
         # `nbdiff <path>` = HEAD against the working tree below <path>
         q["cli_omit_head"] = bool(q["cli"] and kind == "cw" and q["base"] == 0 and q["paths"] and len(q["paths"]) == 1 and draw(st.booleans()))
         queries.append(q)
-    return {"ops": ops, "queries": queries}
+    # a clean filter for notebooks (nbstripout-style set-up; these filters leave the content as it is, so git's answers do not change):
+    # plain, with git's %f placeholder, or a tool that has gone missing (not `required`: git then uses the content unfiltered)
+    flt = draw(st.sampled_from([None, None, None, None, "cat", "cat", "cat %f", "vp-no-such-filter-tool"]))
+    return {"ops": ops, "queries": queries, "filter": flt}
 
 
 def strategy(tier):
@@ -253,6 +256,11 @@ def run_case(case):
     saved_env = dict(os.environ)
     try:
         os.environ.update({k: repo.env[k] for k in ("HOME", "XDG_CONFIG_HOME", "GIT_CONFIG_GLOBAL", "GIT_CONFIG_NOSYSTEM")})
+        if case.get("filter"):
+            with open(os.path.join(repo.root, ".git", "info", "attributes"), "w") as f:
+                f.write("*.ipynb filter=vpclean\n")
+            repo.git("config", "filter.vpclean.clean", case["filter"])
+            out.label("clean_filter_" + case["filter"].split()[0] + ("_%f" if "%f" in case["filter"] else ""))
         for op in case["ops"]:
             repo.apply(op)
         from nbdime.gitfiles import changed_notebooks, GitRefIndex, GitRefWorkingTree
